@@ -121,10 +121,10 @@ PROPS = {
         'assumptions': ['handlers release only what they hold (API contract)'],
     },
     'C03': {
-        'lean_targets': ['Cqos.Props.C03', 'Cqos.Facts.GlueJoin'],
+        'lean_targets': ['Cqos.Props.C03', 'Cqos.Facts.GlueJoin', 'Cqos.Facts.CtorsJoin'],
         'facts': True,
         'theorems': ['Cqos.C03.jstep_inv', 'Cqos.C03.jrun_inv', 'Cqos.C03.c03_concat', 'Cqos.C03.c03_prefix',
-                     'Cqos.C03.c03_nonempty', 'Cqos.C03.c03_join_le', 'Cqos.C03.c03_unite_big', 'Cqos.Facts.glueJoin'],
+                     'Cqos.C03.c03_nonempty', 'Cqos.C03.c03_join_le', 'Cqos.C03.c03_unite_big', 'Cqos.Facts.glueJoin', 'Cqos.Facts.ctorsJoin'],
         'runs': [{'cmd': 'jstepper', 'args': ['-family', 'mixed']},
                  {'cmd': 'blackbox', 'args': ['-scenario', 'join']}],
         'monitor_prefix': ['C03'],
@@ -166,13 +166,13 @@ PROPS = {
         'assumptions': ['Go append within capacity writes in place; slices.Clone returns fresh memory'],
     },
     'C09': {
-        'lean_targets': ['Cqos.Props.C09', 'Cqos.Props.C09u', 'Cqos.Props.C09t', 'Cqos.Facts.GlueJoin'],
+        'lean_targets': ['Cqos.Props.C09', 'Cqos.Props.C09u', 'Cqos.Props.C09t', 'Cqos.Facts.GlueJoin', 'Cqos.Facts.CtorsJoin'],
         'facts': True,
         'theorems': ['Cqos.C09.join_step_emits', 'Cqos.C09.flags_mono', 'Cqos.C09.exact_step', 'Cqos.C09.c09_join_exact',
                      'Cqos.C09.c09_untimed_no_tick', 'Cqos.C09.c09_unite_maximal', 'Cqos.C09.c09_tick_needs_timeout',
                      'Cqos.C09.c09_passAt_at_emission', 'Cqos.C09.c09_passAt_at_release', 'Cqos.C09.unite_ref_step',
                      'Cqos.C09.c09_unite_greedy', 'Cqos.C09.c09_unite_greedy_nocopy', 'Cqos.C09.uniteRef_maximal',
-                     'Cqos.C09.e_step', 'Cqos.C09.e_run', 'Cqos.C09.c09_tick_after_timeout', 'Cqos.Facts.glueJoin'],
+                     'Cqos.C09.e_step', 'Cqos.C09.e_run', 'Cqos.C09.c09_tick_after_timeout', 'Cqos.Facts.glueJoin', 'Cqos.Facts.ctorsJoin'],
         'runs': [{'cmd': 'jstepper', 'args': ['-family', 'untimed']}, {'cmd': 'jstepper', 'args': ['-family', 'mixed']},
                  {'cmd': 'blackbox', 'args': ['-scenario', 'join']}],
         'monitor_prefix': ['C09'],
@@ -192,11 +192,11 @@ PROPS = {
         'assumptions': ['monotone clock (time.Now / time.Since)'],
     },
     'C10': {
-        'lean_targets': ['Cqos.Props.C10', 'Cqos.Facts.C10', 'Cqos.Facts.GlueJoin'],
+        'lean_targets': ['Cqos.Props.C10', 'Cqos.Facts.C10', 'Cqos.Facts.GlueJoin', 'Cqos.Facts.CtorsJoin'],
         'facts': True,
         'theorems': ['Cqos.C10.c10_interval_v2', 'Cqos.C10.c10_interval_v2_nonpositive', 'Cqos.C10.c10_interval_v2_errors',
                      'Cqos.C10.c10_interval_v1', 'Cqos.C10.f_step', 'Cqos.C10.f_run', 'Cqos.C10.c10_passAt_le_oldest',
-                     'Cqos.C10.c10_flush', 'Cqos.Facts.c10_one_ticker', 'Cqos.Facts.glueJoin'],
+                     'Cqos.C10.c10_flush', 'Cqos.Facts.c10_one_ticker', 'Cqos.Facts.glueJoin', 'Cqos.Facts.ctorsJoin'],
         'runs': [{'cmd': 'pure', 'args': ['-family', 'c10']}, {'cmd': 'jstepper', 'args': ['-family', 'mixed']},
                  {'cmd': 'blackbox', 'args': ['-scenario', 'join,joinshared']}],
         'monitor_prefix': ['C10'],
@@ -229,11 +229,11 @@ PROPS = {
         'assumptions': [],
     },
     'C04': {
-        'lean_targets': ['Cqos.Props.C04', 'Cqos.Facts.GlueLimit'],
+        'lean_targets': ['Cqos.Props.C04', 'Cqos.Facts.GlueLimit', 'Cqos.Facts.CtorsLimit'],
         'facts': True,
         'theorems': ['Cqos.C04.tstep_inv', 'Cqos.C04.trun_inv', 'Cqos.C04.c04_item_time', 'Cqos.C04.c04_cumulative',
                      'Cqos.C04.c04_batches', 'Cqos.C04.wstep_inv', 'Cqos.C04.c04_window', 'Cqos.C04.c04_window_count',
-                     'Cqos.C04.c04_sent_sorted', 'Cqos.Facts.glueLimit'],
+                     'Cqos.C04.c04_sent_sorted', 'Cqos.Facts.glueLimit', 'Cqos.Facts.ctorsLimit'],
         'runs': [{'cmd': 'lstepper', 'args': ['-family', 'mixed']},
                  {'cmd': 'blackbox', 'args': ['-scenario', 'limit']}],
         'monitor_prefix': ['C04'],
@@ -252,10 +252,10 @@ PROPS = {
         'assumptions': ['ClockOK: monotone clock, Sleep(d) lasts at least d'],
     },
     'C12': {
-        'lean_targets': ['Cqos.Props.C12', 'Cqos.Facts.GlueLimit'],
+        'lean_targets': ['Cqos.Props.C12', 'Cqos.Facts.GlueLimit', 'Cqos.Facts.CtorsLimit'],
         'facts': True,
         'theorems': ['Cqos.C12.lstep_inv', 'Cqos.C12.lrun_inv', 'Cqos.C12.c12_passthrough', 'Cqos.C12.c12_close',
-                     'Cqos.C12.c12_no_pause_small', 'Cqos.C12.c12_sleep_count', 'Cqos.Facts.glueLimit'],
+                     'Cqos.C12.c12_no_pause_small', 'Cqos.C12.c12_sleep_count', 'Cqos.Facts.glueLimit', 'Cqos.Facts.ctorsLimit'],
         'runs': [{'cmd': 'lstepper', 'args': ['-family', 'mixed']},
                  {'cmd': 'blackbox', 'args': ['-scenario', 'limit']}],
         'monitor_prefix': ['C12'],
@@ -293,13 +293,14 @@ PROPS = {
         'assumptions': [],
     },
     'C15': {
-        'lean_targets': ['Cqos.Props.C15'],
+        'lean_targets': ['Cqos.Props.C15', 'Cqos.Facts.CtorsPrio'],
+        'facts': True,
         'theorems': ['Cqos.C15.safeDivide_err_iff', 'Cqos.C15.round_division_err_iff', 'Cqos.C15.c15_failsafe_step',
                      'Cqos.C15.c15_failsafe_run', 'Cqos.C15.c15_calc_fault', 'Cqos.C15.c15_recalc_fault',
                      'Cqos.C15.c15_base_fault_iff', 'Cqos.C15.c15_drain_progress', 'Cqos.C15.wf_step', 'Cqos.C15.wf_run',
                      'Cqos.C15.c15_args_v2', 'Cqos.C15.c15_args_v1', 'Cqos.C15.c15_args_sublist_calc',
                      'Cqos.C15.c15_args_sublist_recalc', 'Cqos.C15.c15_new_divider_bad', 'Cqos.C15.c15_new_too_small',
-                     'Cqos.C15.c15_unfixed_counterexample'],
+                     'Cqos.C15.c15_unfixed_counterexample', 'Cqos.Facts.ctorsPrio'],
         'runs': [{'cmd': 'stepper', 'args': ['-family', 'faulty']}, {'cmd': 'pure', 'args': ['-family', 'c18']},
                  {'cmd': 'stepper', 'args': ['-family', 'dynamic']}, {'cmd': 'blackbox', 'args': ['-scenario', 'faulty']}],
         'monitor_prefix': ['C15'],
@@ -343,11 +344,11 @@ PROPS = {
         'assumptions': ['priority keys of the Inputs map are distinct (Go map)'],
     },
     'C17': {
-        'lean_targets': ['Cqos.Props.C17', 'Cqos.Facts.C17', 'Cqos.Facts.GluePrioV1'],
+        'lean_targets': ['Cqos.Props.C17', 'Cqos.Facts.C17', 'Cqos.Facts.GluePrioV1', 'Cqos.Facts.CtorsPrio'],
         'facts': True,
         'theorems': ['Cqos.C17.c17_remove', 'Cqos.C17.c17_remove_unreg', 'Cqos.C17.c17_unregistered_not_read', 'Cqos.C17.c17_add',
                      'Cqos.C17.c17_actual_survives', 'Cqos.C01.c01_v1', 'Cqos.C15.c15_args_v1', 'Cqos.C07.c07_v1_graceful_only_then',
-                     'Cqos.Facts.c17_commands_unbuffered', 'Cqos.Facts.gluePrioV1'],
+                     'Cqos.Facts.c17_commands_unbuffered', 'Cqos.Facts.gluePrioV1', 'Cqos.Facts.ctorsPrio'],
         'runs': [{'cmd': 'stepper', 'args': ['-family', 'dynamic']},
                  {'cmd': 'blackbox', 'args': ['-scenario', 'dynamic']}],
         'monitor_prefix': ['C17', 'C02', 'C01'],
@@ -388,11 +389,12 @@ PROPS = {
         'assumptions': ['select eventually takes a ready case'],
     },
     'C05': {
-        'lean_targets': ['Cqos.Props.C05'],
+        'lean_targets': ['Cqos.Props.C05', 'Cqos.Facts.CtorsPrio'],
+        'facts': True,
         'theorems': ['Cqos.C05.addUp_spec', 'Cqos.C05.sat_calc', 'Cqos.C05.sat_recalc', 'Cqos.C05.sat_step', 'Cqos.C05.sat_run',
                      'Cqos.C05.c05_share', 'Cqos.C05.c05_full', 'Cqos.C05.wellBehaved_fair', 'Cqos.C05.wellBehaved_rate',
                      'Cqos.C05.sum_strategic_fair', 'Cqos.C05.sum_strategic_rate',
-                     'Cqos.C05.sat_initV1', 'Cqos.C05.c05_share_v1', 'Cqos.C05.c05_full_v1'],
+                     'Cqos.C05.sat_initV1', 'Cqos.C05.c05_share_v1', 'Cqos.C05.c05_full_v1', 'Cqos.Facts.ctorsPrio'],
         'runs': [{'cmd': 'stepper', 'args': ['-family', 'saturated']}],
         'monitor_prefix': ['C05'],
         'level': 'proof',
@@ -462,11 +464,11 @@ PROPS = {
         'assumptions': ['Go runs deferred calls in reverse registration order after the function body', 'user Handle functions honour their context (v1 Simple)'],
     },
     'C20': {
-        'lean_targets': ['Cqos.Facts.C20', 'Cqos.Facts.C19', 'Cqos.Props.C08', 'Cqos.Props.C17'],
+        'lean_targets': ['Cqos.Facts.C20', 'Cqos.Facts.C19', 'Cqos.Props.C08', 'Cqos.Props.C17', 'Cqos.Facts.CtorsPrio', 'Cqos.Facts.CtorsJoin', 'Cqos.Facts.CtorsLimit'],
         'facts': True,
         'theorems': ['Cqos.Facts.c20_confined', 'Cqos.Facts.c20_main_writes', 'Cqos.Facts.c20_ctors', 'Cqos.Facts.c19_spawn_table',
                      'Cqos.C08.c08_copy', 'Cqos.C08.c08_nocopy', 'Cqos.C08.c08_await_only_release', 'Cqos.C08.c08_v1_frozen',
-                     'Cqos.C17.c17_unregistered_not_read'],
+                     'Cqos.C17.c17_unregistered_not_read', 'Cqos.Facts.ctorsPrio', 'Cqos.Facts.ctorsJoin', 'Cqos.Facts.ctorsLimit'],
         'runs': [{'cmd': 'blackbox', 'args': ['-scenario', 'all'], 'race': True}],
         'monitor_prefix': ['C20'],
         'level': 'proof',
